@@ -18,6 +18,7 @@ mod plg;
 mod rem;
 mod rsn;
 mod cvt;
+mod c03;
 
 pub use rng::Rng;
 
@@ -46,6 +47,8 @@ fn area(name: &str) -> Box<dyn Area> {
         "rem" => Box::new(rem::Rem),
         "rsn" => Box::new(rsn::Rsn),
         "cvt" => Box::new(cvt::Cvt),
+        "c03" => Box::new(c03::C03),
+        "c03f" => Box::new(c03::C03f),
         _ => {
             eprintln!("unknown area {}", name);
             std::process::exit(2)
@@ -78,6 +81,10 @@ fn run_case(a: &dyn Area, case: &str) -> String {
 fn main() {
     std::panic::set_hook(Box::new(|_| {}));
     let args: Vec<String> = std::env::args().collect();
+    if args.len() == 2 && args[1] == "c03child" {
+        c03::child_main();
+        return;
+    }
     if args.len() < 5 {
         eprintln!("usage: adlt-verif <area> gen <seed> <n> <out> [tier] | adlt-verif <area> run <cases> <out>");
         std::process::exit(2);
